@@ -38,3 +38,85 @@ def replay_pairs(rec, pid, path):
         return 1
     print('not reproduced on the current tree')
     return 0
+
+
+# ------------------------------------------------------------------------------------------ solve scenarios
+import multiprocessing as mp
+import os
+import traceback
+
+JOBS = int(os.environ.get('VERIF_JOBS', '16'))
+
+
+def _scenario(task):
+    kind, args = task
+    try:
+        from . import scenarios as sc, solve as sv
+        fn = {'program': sv.run_program, 'resolve': sc.resolve, 'resolve_none': sc.resolve_after_none, 'dimred': sc.dimension_reduction,
+              'history': sc.history, 'verbosity': sc.verbosity, 'no_value': sc.no_value, 'invalid_options': sc.invalid_options,
+              'dual_tables': sc.dual_tables, 'partitions': sc.partitions, 'backends': sc.backends, 'mosek_many_rows': sc.mosek_many_rows,
+              'mosek_no_value': sc.mosek_no_value}[kind]
+        info, fails = fn(*args)
+        return kind, args, info, fails, None
+    except Exception as e:
+        if type(e).__name__ == 'SolverError':
+            # the numerical solver gave up (ill-conditioned heuristic problem): inconclusive, never a violation
+            return kind, args, {'inconclusive': 'SolverError: %s' % str(e)[:100]}, [], None
+        return kind, args, {}, [], '%s: %s\n%s' % (type(e).__name__, e, traceback.format_exc()[-1000:])
+
+
+def run_scenarios(tasks):
+    ctx = mp.get_context('fork')
+    with ctx.Pool(min(JOBS, max(1, len(tasks)))) as pool:
+        return pool.map(_scenario, tasks, chunksize=1)
+
+
+def solve_scenarios(run, pid, tasks, label, rule, known_clause_signature=None):
+    """report the failures of property `pid` found by the bounded solve harness; one VIOLATION per distinct clause"""
+    res = run_scenarios(tasks)
+    seen = {}
+    n_fail = 0
+    errors = 0
+    samples = []
+    for kind, args, info, fails, err in res:
+        if err:
+            errors += 1
+            mine = [(pid, 'scenario.crash', 'the scenario %s%s stopped with %s' % (kind, tuple(args), err.splitlines()[0]))]
+        else:
+            mine = [f for f in fails if f[0] == pid]
+        if len(samples) < 4:
+            samples.append({'scenario': kind, 'args': list(args), 'info': {k: str(v)[:80] for k, v in info.items()}})
+        if not mine:
+            continue
+        n_fail += 1
+        for f in mine:
+            key = f[1]
+            if key in seen:
+                seen[key]['count'] += 1
+                continue
+            seen[key] = {'count': 1}
+            sig = {'clause': f[1]}
+            if known_clause_signature:
+                sig.update(known_clause_signature(kind, args, info, f))
+            run.violation('%s/rt-solve/%s' % (pid, f[1]), '%s [scenario %s%s]' % (f[2], kind, tuple(args)),
+                          replay={'kind': 'solve-scenario', 'scenario': kind, 'args': list(args), 'info': {k: str(v) for k, v in info.items()},
+                                  'observed': [list(x) for x in mine], 'crash': err},
+                          signature=sig, reproduced=True)
+    run.bounded[label] = {'evaluations': len(tasks), 'failing': n_fail, 'rule': rule, 'samples': samples, 'crashed': errors,
+                          'summary': '%d scenarios, %d with a failing post-condition of %s' % (len(tasks), n_fail, pid)}
+
+
+def replay_scenario(rec, pid, path):
+    kind, args = rec['scenario'], [tuple(a) if isinstance(a, list) and a and isinstance(a[0], list) else a for a in rec['args']]
+    if kind == 'history':
+        args[2] = [tuple(x) for x in rec['args'][2]]
+    k, a, info, fails, err = _scenario((kind, args))
+    mine = [f for f in fails if f[0] == pid]
+    print('scenario:', kind, args)
+    print('info:', info)
+    print('failed post-conditions:', mine, err or '')
+    if mine or err:
+        print('VIOLATION property=%s replay=%s' % (pid, path))
+        return 1
+    print('not reproduced on the current tree')
+    return 0
